@@ -119,7 +119,7 @@ func funcSubStr(kv KVPair, args []Expression, ctx *ExecuteCtx) (any, error) {
 	if start < 0 || start > vlen-1 {
 		return "", nil
 	}
-	length = min(length, vlen-start)
+	length = min(length, vlen)
 	if length < start {
 		return "", nil
 	}
